@@ -4,7 +4,7 @@
    model (carried by the block description, not axioms): verification of the consensus witness, admission
    of the transactions by the per-block scratch pool, execution of the block.
    [afix_none] = the code at the pinned commit, [afix_all] = with fixes/F35, F36 applied. *)
-From NG Require Import Common.Tactics Node.Accept Node.AcceptProofs Node.AcceptPool Node.AcceptPoolProofs.
+From NG Require Import Common.Tactics Node.Accept Node.AcceptProofs Node.AcceptPool Node.AcceptPoolProofs Admission.Conflicts Node.AcceptConflicts.
 Open Scope N_scope.
 
 (* accepted <=> the conjunction the property lists (next index; state-root setting; linked to the tip with a
@@ -100,3 +100,35 @@ Theorem C06_refresh_unsound_refuted :
   prun wp_valid wp_relevant_weak true true (1, []) wp_ops = (3, []) /\ wp_valid 2 7 = false.
 Proof. exact refresh_unsound_refuted. Qed.
 Print Assumptions C06_refresh_unsound_refuted.
+
+(* ---- on-chain Conflicts backed by ANY signer (Node/AcceptConflicts.v over the record-table model of
+   Admission/Conflicts.v) ----
+   For every sequence of offered blocks: a block the node accepts contains no transaction t such that a transaction
+   accepted earlier, inside the MaxTraceableBlocks window, names t's hash in a Conflicts attribute and shares a
+   signer with t - in whatever position of t's signer list.  The node asks its record table (dao.HasTransaction)
+   with ALL signers of t; that the table answers exactly this question is C07's conflict_records_exact. *)
+Definition C06_accept_no_signer_conflict_statement : Prop := accept_no_signer_conflict_statement true.
+Theorem C06_accept_no_signer_conflict : accept_no_signer_conflict_statement true.
+Proof. exact accept_no_signer_conflict_all. Qed.
+Print Assumptions C06_accept_no_signer_conflict.
+
+(* spelled out for one block over a chain whose events are sorted by height and not above the current height *)
+Theorem C06_admitted_no_signer_conflict :
+  forall (mtb : N) (es : list cevent) (cur : N) (txs : list ctx),
+    sorted es -> below es cur -> block_admitted true mtb es cur txs = true ->
+    forall t e s, In t txs -> In e es -> traceable (e_idx e) cur mtb = true ->
+                  In (ct_hash t) (e_names e) -> In s (ct_signers t) -> ~ In s (e_signers e).
+Proof. exact admitted_no_signer_conflict'. Qed.
+Print Assumptions C06_admitted_no_signer_conflict.
+
+(* the variant that asks with the sender only accepts a block whose transaction's SECOND signer backs an
+   on-chain conflict *)
+Theorem C06_accept_no_signer_conflict_sender_only_refuted : ~ accept_no_signer_conflict_statement false.
+Proof. exact accept_no_signer_conflict_sender_only_refuted. Qed.
+Print Assumptions C06_accept_no_signer_conflict_sender_only_refuted.
+
+Example C06_signer_conflict_example :
+  fst (offer false 3 (5, w_es) [w_t]) = 6 /\ signer_conflict w_es 5 3 w_t = true /\
+  fst (offer true 3 (5, w_es) [w_t]) = 5 /\
+  fst (offer true 3 (8, w_es) [w_t]) = 9 /\ signer_conflict w_es 8 3 w_t = false.
+Proof. exact sender_only_refuted. Qed.
